@@ -30,7 +30,10 @@ RULE = ("Surfer ASCII grid files written to build/C19/files and read by the real
         "nan/inf tokens, all-blank grids, missing path, closed file object). The path is given in every legitimate "
         "spelling in turn (absolute, relative, ./x, a//b, a/./b, a/../a/b, mixed) as a str and as a pathlib.Path, and "
         "every attribute of the returned DataArray is compared (attrs keys in order, file value AND type, gridID, name, "
-        "dims, dtype): attrs['file'] must be the given object, a str character by character. Non-trivial = the file was accepted and a "
+        "dims, dtype): attrs['file'] must be the given object, a str character by character. Stream rewrite: the SAME path "
+        "is loaded with content A, overwritten with B (another grid of the same / another shape, corrupted counts, wrong "
+        "range, garbage, or unchanged with the first result modified in place) and loaded again: the observed second "
+        "result must be B's grid or B's refusal. Non-trivial = the file was accepted and a "
         "grid returned; distinct = distinct (file text, dtype, call mode).")
 ASSUMPTIONS = [
     "conversion of a single token to a number is an oracle: Python int()/float() for the header, float() (then "
@@ -273,13 +276,34 @@ def cfattr(fa):
     return "(%s %s)" % ("FStr" if fa[0] == "str" else "FPathObj", cstr_safe(fa[1]))
 
 
-def make_case(vd_load, text, mode, dtype, kind, spelling="abs"):
+def make_case(vd_load, text, mode, dtype, kind, spelling="abs", before=None, mutate_first=False):
+    """[before]: content the SAME path had when it was loaded once already (same argument, same dtype)
+    before being overwritten with [text]; [mutate_first]: the first result is modified in place (and kept
+    alive) before the observed call."""
+    import pathlib
     os.makedirs(FILES, exist_ok=True)
     _counter[0] += 1
     path = os.path.join(FILES, "c%06d.grd" % _counter[0])
+    first = None
+    if before is not None:
+        with open(path, "w", newline="") as f:
+            f.write(before)
+        a0 = spell(spelling, path) if mode in ("path", "pathobj") else path
+        if mode == "pathobj":
+            a0 = pathlib.Path(a0)
+        try:
+            first = vd_load(a0, dtype=dtype)
+            if mutate_first:
+                first.values[...] = -777.0
+                first.attrs["gridID"] = "mutated"
+                first.attrs["file"] = "mutated"
+                first.coords["northing"].values[...] = 0.0
+        except Exception:
+            first = None
     with open(path, "w", newline="") as f:
         f.write(text)
     out = observe(vd_load, path, mode, dtype, spelling)
+    del first
     lines = text.split("\n")
     # oracle tables: tokens as Python sees them
     toks = [ln.split() for ln in lines]
@@ -327,7 +351,16 @@ def make_case(vd_load, text, mode, dtype, kind, spelling="abs"):
     rp = os.path.join(FILES, "replay.grd")
     cwd = os.getcwd()
     repro = ("import os, pathlib, verde; os.chdir(%r); p = %r; os.makedirs(os.path.dirname(p), exist_ok=True); "
-             "open(p, 'w', newline='').write(%r); " % (cwd, rp, text))
+             % (cwd, rp))
+    if before is not None:
+        a0 = repr(spell(spelling, rp, cwd))
+        if mode == "pathobj":
+            a0 = "pathlib.Path(%s)" % a0
+        repro += ("open(p, 'w', newline='').write(%r); first = None\ntry:\n    first = verde.load_surfer(%s, dtype=%r)\n"
+                  "except Exception as e:\n    print('first load:', type(e).__name__)\n" % (before, a0, dtype))
+        if mutate_first:
+            repro += "first.values[...] = -777.0; first.attrs['gridID'] = 'mutated'\n"
+    repro += "open(p, 'w', newline='').write(%r); " % text
     show = "print(g); print(g.attrs, g.name)"
     if mode == "missing":
         repro += "g = verde.load_surfer(p + '.does-not-exist', dtype=%r); %s" % (dtype, show)
@@ -339,6 +372,9 @@ def make_case(vd_load, text, mode, dtype, kind, spelling="abs"):
         repro += "f = open(p); %sg = verde.load_surfer(f, dtype=%r); %s" % ("f.close(); " if mode == "closedfile" else "", dtype, show)
     inp = {"text": text, "dtype": dtype, "call": mode, "spelling": spelling if mode in ("path", "pathobj") else None,
            "given": out["given"]}
+    if before is not None:
+        inp["same_path_loaded_before_with_content"] = before
+        inp["first_result_modified_in_place"] = bool(mutate_first)
     return Case(inp, _json_vals(out), term, repro, kind, nontrivial=("ok" in out))
 
 
@@ -791,6 +827,32 @@ def generate(tier, seed):
         for m in ("path", "pathobj"):
             cases.append(make_case(vd_load, sp_ok, m, "float64" if k % 2 else "float32", "spelling", spelling=sp))
             cases.append(make_case(vd_load, sp_bad, m, "float32" if k % 2 else "float64", "spelling", spelling=sp))
+    # 7. same path, new content: the path is loaded once with content A, overwritten with B, loaded again -
+    #    the result must be B's grid / B's refusal (never A's); same unchanged path twice with the first
+    #    result modified in place in between
+    n_rw = 2 if quick else 25
+    for i in range(n_rw):
+        for dt in ("float64", "float32"):
+            a = valid_spec(rnd, dt, nr=rnd.choice([2, 3, 4]), nc=rnd.choice([2, 3, 5]), ws=rnd.choice([0, 1]))
+            b_same = valid_spec(rnd, dt, nr=a.nr, nc=a.nc, ws=rnd.choice([0, 1]))
+            b_other = valid_spec(rnd, dt, nr=a.nr + 1, nc=a.nc + 2, ws=rnd.choice([0, 1]))
+            b_same.id_line, b_other.id_line = "DSAB", "OTHER"
+            ta = a.render(rnd)
+            cor = dict(corruptions(rnd, a, dt))
+            pairs = [("other-grid-same-shape", ta, b_same.render(rnd), False),
+                     ("other-grid-other-shape", ta, b_other.render(rnd), False),
+                     ("now-counts-swapped", ta, cor["counts-swapped" if a.nr != a.nc else "nrows+1"], False),
+                     ("now-range-wrong", ta, cor["range-hi-wider"], False),
+                     ("now-garbage", ta, "DSAA\n", False),
+                     ("was-refused-now-valid", cor["range-shifted"], ta, False),
+                     ("unchanged-twice", ta, ta, False),
+                     ("unchanged-first-result-modified", ta, ta, True)]
+            for k, (name, t0, t1, mut) in enumerate(pairs):
+                sp = SPELLINGS[(i + k) % len(SPELLINGS)]
+                m = "pathobj" if (i + k + (dt == "float32")) % 3 == 0 else "path"
+                cases.append(make_case(vd_load, t1, m, dt, "rewrite", spelling=sp, before=t0, mutate_first=mut))
+                if k < 4 and i == 0:
+                    cases.append(make_case(vd_load, t1, "file", dt, "rewrite"))
     ok_text = "DSAA\n2 3\n0 1\n0 2\n1 6\n1 2 3\n4 5 6\n"
     bad_text = "DSAA\n2 3\n0 1\n0 2\n1 7\n1 2 3\n4 5 6\n"
     for dt in ("float64", "float32"):
